@@ -201,12 +201,16 @@ static Token *skip_cond_incl(Token *tok) {
   return tok;
 }
 
-// Double-quote a given string and returns it.
+// Double-quote a given string and returns it. A new-line or carriage
+// return (possible in a #line file name) is written as an octal escape
+// sequence: in a string literal it would end the line.
 static char *quote_string(char *str) {
   int bufsize = 3;
   for (int i = 0; str[i]; i++) {
     if (str[i] == '\\' || str[i] == '"')
       bufsize++;
+    if (str[i] == '\n' || str[i] == '\r')
+      bufsize += 3;
     bufsize++;
   }
 
@@ -214,6 +218,10 @@ static char *quote_string(char *str) {
   char *p = buf;
   *p++ = '"';
   for (int i = 0; str[i]; i++) {
+    if (str[i] == '\n' || str[i] == '\r') {
+      p += sprintf(p, "\\%03o", str[i]);
+      continue;
+    }
     if (str[i] == '\\' || str[i] == '"')
       *p++ = '\\';
     *p++ = str[i];
